@@ -387,8 +387,10 @@ def run_property(prop, tier, seed):
     # ---- bounded model checks
     for m in mcs:
         r = vlib.run_mc(m['module'], m['cfg'], m['workers'], m['timeout'], m['xmx'])
-        log('[mc] %s/%s: %d distinct states, %d generated, %.0fs%s' % (m['module'], m['cfg'], r['distinct'], r['generated'], r['secs'],
-                                                                    (' VIOLATION ' + r['violation']) if r['violation'] else ''))
+        note = ''
+        if r['violation']:
+            note = ' (reachability witness reached, as required)' if m.get('witness') else ' -- model check FAILED: ' + r['violation']
+        log('[mc] %s/%s: %d distinct states, %d generated, %.0fs%s' % (m['module'], m['cfg'], r['distinct'], r['generated'], r['secs'], note))
         states += r['distinct']
         trans += r['generated']
         mc_summ.append({'module': m['module'], 'cfg': m['cfg'], 'distinct_states': r['distinct'], 'states_generated': r['generated'], 'secs': round(r['secs'], 1),
